@@ -46,6 +46,7 @@ type myUint64 uint64
 type myFloat32 float32
 type myFloat64 float64
 type myString string
+type myDuration time.Duration
 
 var (
 	kinds   []*tkind
@@ -96,9 +97,9 @@ func initKinds() {
 	add("float32", cFloat, float32(0), myFloat32(0))
 	add("float64", cFloat, float64(0), myFloat64(0))
 	add("string", cString, "", myString(""))
-	// a named type over time.Duration is an int64 to the library (5 means 5ns,
-	// not 5s); the statement does not say which is meant, so it is not generated.
-	add("duration", cDur, time.Duration(0), nil)
+	// the quantifier names "time.Duration, pointer-to and named variants of
+	// them": a named type over time.Duration is a duration (5 means 5s)
+	add("duration", cDur, time.Duration(0), myDuration(0))
 }
 
 // ---------------------------------------------------------------------------
@@ -641,4 +642,30 @@ func (e *expectation) deviation(t *tkind, got reflect.Value) string {
 		return "wrong-value"
 	}
 	return "wrong-value"
+}
+
+// nsReading: the number a setting denotes when it is NOT taken as seconds (what
+// an int64 target would receive); nil when it has none.
+func nsReading(s src) *big.Int {
+	n, ok := s.num()
+	if !ok {
+		if s.kind != 's' {
+			return nil
+		}
+		if v, _, _, _ := parseIntAny(s.s); v != nil {
+			return v
+		}
+		f, err := strconv.ParseFloat(s.s, 64)
+		if err != nil {
+			return nil
+		}
+		n = num{isFloat: true, f: f}
+	}
+	if !n.isFloat {
+		return n.v
+	}
+	if math.IsNaN(n.f) || math.IsInf(n.f, 0) {
+		return nil
+	}
+	return truncBig(n.f)
 }
